@@ -1329,6 +1329,12 @@ func Run(t *testing.T, p *Plan, logOn bool) (v *verifh.Violation, info *runInfo)
 	func() {
 		defer func() {
 			if r := recover(); r != nil {
+				if os.Getenv("VERIF_ISOLATED") != "" && strings.Contains(fmt.Sprint(r), "blocked goroutines remain") {
+					// one process per run, used for trees whose goroutines outlive a run: that a
+					// goroutine of the code under test is still parked when the bubble ends is expected
+					verifh.Count("probe.goroutine-of-the-code-under-test-outlives-the-run", 1)
+					return
+				}
 				verifh.HarnessError("bubble ended abnormally: %v", r)
 			}
 		}()
